@@ -527,6 +527,13 @@ func (c *Case) shape() string {
 }
 
 func diffPart(impl, want string) string {
+	if !strings.HasPrefix(want, "ok ") {
+		// string methods: a single result
+		if strings.SplitN(impl, " ", 2)[0] == strings.SplitN(want, " ", 2)[0] {
+			return "ret"
+		}
+		return "outcome"
+	}
 	a, b := strings.Split(impl, " |"), strings.Split(want, " |")
 	if len(a) != len(b) || !strings.HasPrefix(impl, "ok ") {
 		return "outcome"
@@ -608,7 +615,8 @@ func shrink(c *Case) *Case {
 					try(d)
 				}
 			}
-			if !progressed && len(cur.Args) > 0 {
+			variadic := cur.Method == "push" || cur.Method == "unshift" || cur.Method == "concat" || (cur.Method == "splice" && len(cur.Args) > 2)
+			if !progressed && variadic && len(cur.Args) > 0 {
 				d := cur
 				d.Args = cloneL(cur.Args[:len(cur.Args)-1])
 				try(d)
@@ -709,7 +717,11 @@ func (r *runner) flush() {
 		got := runCases([]*Case{s})[0]
 		w2, _ := s.reference()
 		sig := s.Kind + ":" + s.Method + ":" + s.shape() + ":" + diffPart(got, w2)
-		c.Violation(sig, fmt.Sprintf("$x->%s(%s) on %s: got %s, documented semantics give %s", s.Method, phpArgs(s.Args), s.recvPHP(), got, w2), s)
+		call := phpArgs(s.Args)
+		if s.Cb != "" {
+			call = strings.TrimSuffix(s.Cb+", "+call, ", ")
+		}
+		c.Violation(sig, fmt.Sprintf("$x->%s(%s) on %s: got %s, documented semantics give %s", s.Method, call, s.recvPHP(), got, w2), s)
 	}
 }
 
@@ -1022,7 +1034,7 @@ func Run(c *vh.Ctx) {
 		return
 	}
 	c.Res.Rule = "one case = one method call `$x->m(args)` on a receiver in a variable; result and receiver afterwards (json_encode) compared with the Lean model (correspondence) and with an independent Go reference of the documented semantics (property). Arrays: every receiver up to length L over {1,'a',[2,[3]]} x all 23 methods x every argument tuple over {omitted,null,-len-1,-len,-1,0,1,len-1,len,len+1} x 0..3 variadic items x every named callback (element/index/array); then seeded receivers of length 0..6 (some up to 16) over ints, strings, null, booleans and nested lists. Strings: every text up to length 3 over {a,' ',é} plus seeded texts of 0..12 characters (ASCII and multi-byte) x 10 methods x argument sets (substring: every start/end tuple). non-trivial = non-empty receiver and (arguments or a callback or a mutating method); distinct = distinct concrete case"
-	maxLen := c.N(2, 3)
+	maxLen := c.N(3, 4)
 	for _, recv := range receivers(maxLen, elemPoolSmall) {
 		r.enumArr(recv)
 	}
@@ -1034,11 +1046,11 @@ func Run(c *vh.Ctx) {
 	c.Res.Exhaustive = true
 	c.Res.ExhaustiveWhat = fmt.Sprintf("arrays: all receivers of length <= %d over 3 element kinds x all methods x all index-argument tuples x 4 variadic item sets x all named callbacks; strings: all texts of length <= 3 over {a, space, é} x all methods x argument sets", maxLen)
 	// seeded
-	for i := 0; i < c.N(12000, 250000); i++ {
+	for i := 0; i < c.N(60000, 1500000); i++ {
 		r.add(r.randArr(c.Rand))
 	}
 	r.flush()
-	for i := 0; i < c.N(300, 6000); i++ {
+	for i := 0; i < c.N(1500, 40000); i++ {
 		r.enumStr(randText(c.Rand, 12, i%2 == 1), c.Rand)
 	}
 	r.flush()
@@ -1046,9 +1058,21 @@ func Run(c *vh.Ctx) {
 	for _, k := range docExamples() {
 		r.add(k)
 	}
+	// the negation witnesses of Proofs/Properties/C15.lean (C15_str_*_counterexample), replayed on the real code
+	for _, k := range leanWitnesses() {
+		r.add(k)
+	}
 	r.flush()
 	if m != nil {
 		c.Res.ModelLines = m.Lines
+	}
+}
+
+func leanWitnesses() []*Case {
+	return []*Case{
+		{Kind: "str", Method: "length", RecvS: "héllo"},
+		{Kind: "str", Method: "indexOf", RecvS: "héllo", Args: []V{Str("l")}},
+		{Kind: "str", Method: "substring", RecvS: "héllo", Args: []V{Int(1), Int(4)}},
 	}
 }
 
